@@ -71,7 +71,9 @@ Response(w, rq) ==
 
 W0 == [baddr |-> [id \in BIds |-> IF id = 3 THEN "-" ELSE "a"], ctrl |-> 1,
        ts |-> [t \in Topics |-> IF t = "t1" THEN "ok" ELSE "absent"],
-       parts |-> [t \in Topics |-> [p \in Parts |-> IF t = "t1" THEN Desc("none", p + 1, 1) ELSE Off]]]
+       \* t2 does not exist yet; when it appears it has one partition led by broker 2
+       parts |-> [t \in Topics |-> [p \in Parts |-> IF t = "t1" THEN Desc("none", p + 1, 1)
+                                                      ELSE IF p = 0 THEN Desc("none", 2, 2) ELSE Off]]]
 W0conc == [W0 EXCEPT !.ts = [t \in Topics |-> "ok"],
                      !.parts = [t \in Topics |-> [p \in Parts |-> Desc("none", p + 1, 1)]]]
 
